@@ -39,6 +39,7 @@ import (
 	"sort"
 	"strings"
 	"testing"
+	"time"
 
 	"github.com/lightningnetwork/lnd/channeldb"
 	"github.com/lightningnetwork/lnd/contractcourt"
@@ -68,6 +69,12 @@ func (w *c07World) predictStart(exp *c07Expect) {
 		h := w.htlcs[in]
 		h.unclaimed, h.wasParked, h.parkedFin = false, false, false
 	}
+	// acks queued in memory die with the switch
+	for c := 1; c <= c07NumChans; c++ {
+		for _, fe := range w.fwd[c] {
+			fe.queued = false
+		}
+	}
 
 	// reforwardResponses: channels in the order of FetchAllChannels,
 	// packages by height, un-acked settles/fails by index.
@@ -79,7 +86,8 @@ func (w *c07World) predictStart(exp *c07Expect) {
 			h := w.findOpen(fe.out)
 			switch {
 			case h == nil:
-				// circuit gone: nothing to relay
+				// circuit gone: nothing to relay, ack queued
+				w.queueAck(fe)
 				w.label("start:refwd_circuit_gone")
 
 			case h.closed:
@@ -95,8 +103,19 @@ func (w *c07World) predictStart(exp *c07Expect) {
 				h.wantDest = &ref
 				exp.respond(h)
 				w.label("start:refwd_fwdpkg")
+				if h.dupTick {
+					// the cell of seeded C08g: duplicate while
+					// un-committed, ack tick, restart: still
+					// to be re-forwarded
+					w.label("lc:refwd_after_tick_after_dup_" +
+						"uncommitted")
+				}
 			}
 		}
+	}
+
+	for _, in := range w.order {
+		w.htlcs[in].dupClosing, w.htlcs[in].dupTick = false, false
 	}
 
 	// reforwardResolutions: the store is walked in key order.
@@ -342,6 +361,48 @@ func (w *c07World) actResolution(t *rapid.T) error {
 	return w.settle(exp)
 }
 
+// actAckTick: the switch's AckEventTicker fires. The forwarder persists the
+// settle/fail acks it queued in memory (SwitchPackager.AckSettleFails); the
+// barrier of settle() returns after that, both run on the forwarder goroutine.
+// Model: exactly the acks of responses whose circuit was already gone are
+// persisted, never the one of a response whose circuit is open or closing
+// (the incoming link has not committed it; after a restart it must be
+// re-forwarded from the package).
+func (w *c07World) actAckTick(t *rapid.T) error {
+	select {
+	case w.ackTicker.Force <- time.Now():
+	case <-w.sw.quit:
+		return errors.New("switch quit")
+	}
+	n := 0
+	for c := 1; c <= c07NumChans; c++ {
+		for _, fe := range w.fwd[c] {
+			if fe.queued {
+				fe.queued, fe.acked = false, true
+				n++
+			}
+		}
+	}
+	dup := 0
+	for _, in := range w.order {
+		h := w.htlcs[in]
+		if h.dupClosing && h.exists && !h.resolved {
+			h.dupTick = true
+			dup++
+		}
+	}
+	w.logf("ackTick persisted=%d dupUncommitted=%d", n, dup)
+	w.label("lc:ack_tick")
+	if n > 0 {
+		w.label("lc:tick_persisted_acks")
+	}
+	if dup > 0 {
+		w.label("lc:tick_after_dup_uncommitted")
+	}
+
+	return w.settle(&c07Expect{})
+}
+
 // productive lists the actions that can advance some HTLC along the pipeline
 // in the current state (used by the guided half of the generator).
 func (w *c07World) productive() []string {
@@ -349,6 +410,7 @@ func (w *c07World) productive() []string {
 		addLink, removeLink, inCommit, respond, outProcess bool
 		resolution                                         bool
 		inFlight, restartUseful, restartHarmful            int
+		ackTick, dupTicked                                 bool
 	)
 	for c := 1; c <= c07NumChans; c++ {
 		if !w.live[c] {
@@ -396,6 +458,17 @@ func (w *c07World) productive() []string {
 		if !h.closed && w.live[oc] {
 			respond = true
 		}
+		// towards the duplicate / tick / restart cell
+		if ic != 0 && h.closed && !h.resolved && w.fwdByOut[*h.out] != nil {
+			switch {
+			case h.dupTick:
+				dupTicked = true
+			case h.dupClosing:
+				ackTick = true
+			case w.live[oc]:
+				respond = true
+			}
+		}
 		if !h.closed && !w.live[oc] && !w.resMsgs[*h.out] {
 			resolution = true
 		}
@@ -419,7 +492,16 @@ func (w *c07World) productive() []string {
 	if resolution {
 		acts = append(acts, "resolution")
 	}
-	if restartUseful > 0 && restartHarmful == 0 {
+	for c := 1; c <= c07NumChans && !ackTick; c++ {
+		for _, fe := range w.fwd[c] {
+			// a legitimately queued ack waits for the ticker
+			ackTick = ackTick || fe.queued
+		}
+	}
+	if ackTick {
+		acts = append(acts, "ackTick")
+	}
+	if dupTicked || restartUseful > 0 && restartHarmful == 0 {
 		acts = append(acts, "restart")
 	}
 	if inFlight < 3 {
@@ -514,8 +596,10 @@ func TestVerifC07LinkLifecycle(t *testing.T) {
 					act = "restart"
 				case kind < 88:
 					act = "addLink"
-				case kind < 94:
+				case kind < 93:
 					act = "removeLink"
+				case kind < 96:
+					act = "ackTick"
 				default:
 					act = "resolution"
 				}
@@ -546,6 +630,8 @@ func TestVerifC07LinkLifecycle(t *testing.T) {
 				err = w.actAddLink(t)
 			case "removeLink":
 				err = w.actRemoveLink(t)
+			case "ackTick":
+				err = w.actAckTick(t)
 			default:
 				err = w.actResolution(t)
 			}
